@@ -314,7 +314,8 @@ PROPS['C03'] = dict(items=items_C03, bounds=BOUNDS_GRAPH, outside=OUTSIDE, vacui
 
 def items_C08(tier, seed, P):
     o = {'panics_ok': True}
-    return graph_items('C08', tier, seed, {'C08'}, opts=o, noop=True) + mult_items('C08', tier, seed, {'C08'}, opts=o) + history_items('C08', tier, seed, {'C08'}, opts=o)
+    return (graph_items('C08', tier, seed, {'C08'}, opts=o, noop=True) + mult_items('C08', tier, seed, {'C08'}, opts=o) + history_items('C08', tier, seed, {'C08'}, opts=o)
+            + lemma_items('C08', ['linksremove']))
 
 
 PROPS['C08'] = dict(items=items_C08, bounds=BOUNDS_GRAPH, outside=OUTSIDE, vacuity=vac_paths('dtor', 'multi_destroy_ops'), replay_oracles=['C08'])
@@ -382,6 +383,40 @@ def lemma_items(prop, which):
                 if sc.E.check(pre):
                     _viol(res, sc, prop, 'lemma-weak-drop-outcome', 'dropping a non-last Weak ended in %s' % out[0])
         mk('weakdrop', [{'op': 'new', 'obj': 0, 'as': 'h'}, {'op': 'downgrade', 'h': 'h', 'as': 'x'}, {'op': 'set_weak', 'h': 'h', 'v': 'w'}, {'op': 'wdrop', 'w': 'x'}], post)
+    if 'linksremove' in which:
+        def mkpost(present):
+            def post(sc, out, res):
+                n = sc.symvars['n']
+                t = sc.table(0) if out[0] == 'ok' else None
+                cur = t.get(('Forward', 1)) if isinstance(t, dict) else None
+                # representation invariant of a table: no zero-count record
+                pre = z3.UGE(sc.symvars['c'], 1) if present else z3.BoolVal(True)
+                if out[0] != 'ok':
+                    if sc.E.check(pre):
+                        _viol(res, sc, prop, 'lemma-links-remove-outcome', 'Links::remove ended in %s' % out[0], pre)
+                    return
+                if not present:
+                    if cur is not None:
+                        _viol(res, sc, prop, 'lemma-links-remove-absent', 'Links::remove of a link that is not recorded created an entry')
+                    return
+                c = sc.symvars['c']
+                if cur is None:
+                    # entry deleted: only allowed when c <= n
+                    if sc.E.check(z3.And(pre, z3.UGT(c, n))):
+                        _viol(res, sc, prop, 'lemma-links-remove-deletes', 'Links::remove deletes a record although more adoptions were recorded than removed', z3.And(pre, z3.UGT(c, n)))
+                else:
+                    if sc.E.check(z3.And(pre, z3.ULE(c, n))):
+                        _viol(res, sc, prop, 'lemma-links-remove-keeps', 'Links::remove keeps a record although at least as many adoptions were removed as recorded', z3.And(pre, z3.ULE(c, n)))
+                    if sc.E.check(z3.And(pre, bv(cur) != c - n)):
+                        _viol(res, sc, prop, 'lemma-links-remove-count', 'Links::remove leaves a count other than recorded minus removed', z3.And(pre, bv(cur) != c - n))
+                    if sc.E.check(z3.And(pre, bv(cur) == 0)):
+                        _viol(res, sc, prop, 'lemma-links-remove-zero', 'Links::remove leaves a zero-count record', z3.And(pre, bv(cur) == 0))
+            return post
+        base = [{'op': 'new', 'obj': 0, 'as': 'h'}, {'op': 'new', 'obj': 1, 'as': 'g'}]
+        mk('links-remove-present', base + [{'op': 'clone', 'h': 'g', 'as': 't'}, {'op': 'adopt', 'a': 'h', 'b': 't'}, {'op': 'store', 'via': 'h', 'h': 't'},
+                                           {'op': 'set_link', 'h': 'h', 'kind': 'Forward', 'target': 'g', 'v': 'c'},
+                                           {'op': 'unit_links_remove', 'h': 'h', 'kind': 'Forward', 'target': 'g', 'n': 'n'}], mkpost(True))
+        mk('links-remove-absent', base + [{'op': 'unit_links_remove', 'h': 'h', 'kind': 'Forward', 'target': 'g', 'n': 'n'}], mkpost(False))
     if 'rcdrop' in which:
         def post(sc, out, res):
             s = sc.symvars['s']
@@ -486,16 +521,41 @@ def consume_weak_items(prop, tier, seed):
     return items
 
 
+def panic_weak_items(prop, tier, seed):
+    """a member destructor panics during a teardown (caught by the caller): afterwards every Weak must still agree with
+    whether the value was destroyed (the other members' values are destroyed although one destructor panicked)"""
+    items = []
+    R = lambda i, j: (i, j, True, False)
+    sh = [(2, [R(0, 1), R(1, 0)], 'ring2'), (2, [R(0, 1)], 'owner-target'), (3, F.named_shapes(3)['ring3'], 'ring3'), (3, F.named_shapes(3)['clique3'], 'clique3')]
+    for (n, e, nm) in sh:
+        for k in range(n):
+            base = F.build_ops(n, e, extras=True) + [{'op': 'on_drop_panic', 'obj': k}]
+            for i in range(n):
+                base.append({'op': 'downgrade', 'h': H(i), 'as': 'ow%d' % i})
+            for seq in F.drop_sequences(n, n)[:2]:
+                ops = list(base)
+                for (kk, i) in seq:
+                    ops.append({'op': 'catch', 'do': F.drop_ops([(kk, i)])})
+                    for j in range(n):
+                        ops += [{'op': 'catch', 'do': [{'op': 'upgrade', 'w': 'ow%d' % j}]}, {'op': 'w_strong_count', 'w': 'ow%d' % j}, {'op': 'w_weak_count', 'w': 'ow%d' % j}]
+                items.append(dict(prop=prop, name='%s panic@%d drops=%s' % (nm, k, ''.join('%s%d' % q for q in seq)), script={'ops': ops}, sym=True, oracles={'C05'},
+                                  opts={'panics_ok': True}, layouts=std_layouts(n, tier, seed)[:4]))
+    return items
+
+
 def items_C05(tier, seed, P):
     return (weak_graph_items('C05', tier, seed, {'C05'}, opts={'panics_ok': True}) + consume_weak_items('C05', tier, seed)
-            + lemma_items('C05', ['downgrade', 'weakdrop']))
+            + panic_weak_items('C05', tier, seed) + lemma_items('C05', ['downgrade', 'weakdrop']))
 
 
 PROPS['C05'] = dict(items=items_C05, bounds=BOUNDS_GRAPH, outside=OUTSIDE, vacuity=vac_paths('dtor', 'multi_destroy_ops', 'upgrade:some', 'upgrade:none', 'try_unwrap:ok', 'make_mut:moved'), replay_oracles=['C05'])
 
 
 def items_C04(tier, seed, P):
-    return weak_graph_items('C04', tier, seed, {'C04'}, opts={'expect_all_freed': True}, end_all=True) + lemma_items('C04', ['weakdrop'])
+    o = {'expect_all_freed': True}
+    return (weak_graph_items('C04', tier, seed, {'C04'}, opts=o, end_all=True)
+            + weak_graph_items('C04', tier, seed, {'C04'}, opts=o, end_all=True, dtor_upgrades=False, one_weak=True)     # the only Weak lives inside a value
+            + lemma_items('C04', ['weakdrop']))
 
 
 PROPS['C04'] = dict(items=items_C04, bounds=BOUNDS_GRAPH, outside=OUTSIDE, vacuity=vac_paths('dtor', 'multi_destroy_ops'), replay_oracles=['C04'],
@@ -508,6 +568,9 @@ def items_C16(tier, seed, P):
     shapes = [(2, F.named_shapes(2)['ring2'], 'ring2'), (1, [(0, 0, True, False)], 'selfclone1')]
     for nm, e in F.named_shapes(3).items():
         shapes.append((3, e, nm))
+    # a ring member that also carries upstream's "no effect" same-handle self adoption (two keys in the trace result)
+    shapes.append((2, F.named_shapes(2)['ring2'] + [(0, 0, True, 'noop')], 'ring2+noop-self@0'))
+    shapes.append((3, F.named_shapes(3)['ring3'] + [(1, 1, True, 'noop')], 'ring3+noop-self@1'))
     if tier != 'quick':
         for nm, e in F.named_shapes(4).items():
             shapes.append((4, e, nm))
@@ -516,7 +579,8 @@ def items_C16(tier, seed, P):
     for (n, e, nm) in shapes:
         outdeg = {}
         for (i, j, r, s) in e:
-            outdeg[i] = outdeg.get(i, 0) + 1
+            if s != 'noop':
+                outdeg[i] = outdeg.get(i, 0) + 1
         for actor in range(n):
             for k in range(outdeg.get(actor, 0)):
                 for what in ('clone', 'none'):
@@ -527,7 +591,7 @@ def items_C16(tier, seed, P):
                         ops = list(base) + F.drop_ops(seq)
                         items.append(dict(prop='C16', name='%s dtor%d %s @%d drops=%s' % (nm, actor, what, k, ''.join('%s%d' % s for s in seq)),
                                           script={'ops': ops}, sym=True, oracles={'C16'}, opts={'abort_ok': 'clone-of-dead', 'panics_ok': True},
-                                          layouts=std_layouts(n, tier, seed)[:3]))
+                                          layouts=std_layouts(n, tier, seed)[:3] + ([('rank', tuple(range(n)), (2, 0, 1), 'kind', False), ('rank', tuple(range(n)), (1, 2, 0), 'obj', False)] if 'noop' in nm else [])))
     return items
 
 
@@ -688,6 +752,20 @@ def items_C13(tier, seed, P):
     for nm, e in F.named_shapes(3).items():
         if 'same' not in nm:
             shapes.append((3, e, nm))
+    R = lambda i, j: (i, j, True, False)
+    # unequal multiplicities between a pair; every handle of one direction is taken out without unadopt
+    for (n, e, nm) in [(2, [R(0, 1), R(0, 1), R(1, 0)], 'N2[0=>1 x2, 1=>0]'), (2, [R(0, 1), R(1, 0), R(1, 0)], 'N2[0=>1, 1=>0 x2]'), (2, [R(0, 1), R(0, 1)], 'N2[0=>1 x2]')]:
+        cnt = sum(1 for (a, b, c, d) in e if a == 0 and b == 1)
+        first = [k for k, (a, b, c, d) in enumerate([x for x in e if x[0] == 0]) if b == 1]
+        base = F.build_ops(n, e, extras=True)
+        for k in range(cnt):
+            base.append({'op': 'take', 'via': H(0), 'slot': first[0], 'as': 'st%d' % k})
+        for k in range(cnt):
+            base.append({'op': 'drop', 'h': 'st%d' % k})
+        for seq in F.drop_sequences(n, n):
+            items.append(dict(prop='C13', name='%s forget-unadopt ALL 0->1 dropped drops=%s' % (nm, ''.join('%s%d' % q for q in seq)),
+                              script={'ops': list(base) + F.drop_ops(seq)}, sym=True, oracles={'C13'}, opts={'stale': True, 'panics_ok': False}, tags=['stale'],
+                              layouts=std_layouts(n, tier, seed)[:3]))
     for (n, e, nm) in shapes:
         # slot index of each edge inside its owner
         for ei, (i, j, r, s) in enumerate(e):
@@ -737,7 +815,7 @@ def items_C12(tier, seed, P):
         for tgt in range(n):
             for an, mk in apis.items():
                 for pre in ([], [('h', (tgt + 1) % n)] if n > 1 else []):
-                    base = F.build_ops(n, e, extras=False)
+                    base = F.build_ops(n, e, extras=True, wextras=True)
                     base += F.drop_ops(pre)
                     base += mk(H(tgt))
                     rest = [i for i in range(n) if ('h', i) not in pre]
@@ -750,13 +828,13 @@ def items_C12(tier, seed, P):
                                 ops.append({'op': 'drop', 'h': H(i)})
                         if 'weak' in an:
                             ops.append({'op': 'wdrop', 'w': 'wk'})
-                        items.append(dict(prop='C12', name='%s %s on %d pre=%s then %s' % (nm, an, tgt, pre, perm), script={'ops': ops}, sym=False,
+                        items.append(dict(prop='C12', name='%s %s on %d pre=%s then %s' % (nm, an, tgt, pre, perm), script={'ops': ops}, sym=True,
                                           oracles={'C12', 'C08', 'C04'}, accept_props=['C12', 'C08', 'C04'], relabel=True, ub_prop='C12',
                                           opts={'tables_exact': False, 'panics_ok': False, 'expect_all_freed': True}, layouts=std_layouts(n, tier, seed)[:2 if tier == 'quick' else 4]))
     return items
 
 
-PROPS['C12'] = dict(items=items_C12, bounds={'quick': {'shapes': 'owner/target, ring2, self-clone, chain3, ring3, ring2+tail', 'calls': 'try_unwrap (with/without Weak), make_mut (with/without Weak), get_mut, into_raw/from_raw, increment/decrement_strong_count on every object, optionally after dropping a neighbour; then the remaining handles are dropped in 2 orders', 'counters': 'concrete (the APIs branch on strong==1 / weak==0: every branch is reached structurally)'},
+PROPS['C12'] = dict(items=items_C12, bounds={'quick': {'shapes': 'owner/target, ring2, self-clone, chain3, ring3, ring2+tail', 'calls': 'try_unwrap (with/without Weak), make_mut (with/without Weak), get_mut, into_raw/from_raw, increment/decrement_strong_count on every object, optionally after dropping a neighbour; then the remaining handles are dropped in 2 orders', 'counters': 'extra strong and Weak handles per object symbolic 64-bit: z3 decides the strong==1 / weak==0 branches of try_unwrap, get_mut and make_mut'},
                                              'thorough': {'orders': 'all drop orders', 'layouts': 4}},
                     outside=OUTSIDE, vacuity=vac_paths('dtor', 'try_unwrap:ok', 'try_unwrap:err', 'make_mut:cloned', 'make_mut:moved', 'make_mut:inplace', 'get_mut:some', 'get_mut:none'), replay_oracles=['C12', 'C08', 'C04'])
 
@@ -1101,6 +1179,23 @@ def items_C09(tier, seed, P):
             items.append(dict(prop='C09', name='%s drops=%s' % (nm, ''.join('%s%d' % q for q in seq)), script={'ops': ops}, sym=True, oracles=set(),
                               opts={'panics_ok': True, 'abort_ok': True}, layouts=lays, collect=_c09_collect, post_item=_c09_post_item, accept_props=['C09'],
                               max_paths=20000))
+    # every stored handle recorded, but a handle is given up without `unadopt` (allowed): pair with unequal multiplicities next to a ring
+    R2 = lambda i, j: (i, j, True, False)
+    for (e, nm, owner, slot) in [([R2(0, 1), R2(0, 1), R2(1, 0), R2(1, 2), R2(2, 1)], 'T=>X x2, X=>T, X<=>Y; X gives up its handle to T', 1, 0),
+                                ([R2(0, 1), R2(1, 0), R2(1, 0), R2(1, 2), R2(2, 1)], 'T=>X, X=>T x2, X<=>Y; T gives up its handle to X', 0, 0)]:
+        base = F.build_ops(3, e, extras=True)
+        for i in range(3):
+            base.append({'op': 'downgrade', 'h': H(i), 'as': 'ow%d' % i})
+        base += [{'op': 'take', 'via': H(owner), 'slot': slot, 'as': 'st'}, {'op': 'drop', 'h': 'st'}]
+        for seq in F.drop_sequences(3, 3):
+            ops = list(base)
+            for (kk, i) in seq:
+                ops += F.drop_ops([(kk, i)])
+                for j in range(3):
+                    ops += [{'op': 'w_strong_count', 'w': 'ow%d' % j}]
+            items.append(dict(prop='C09', name='%s drops=%s' % (nm, ''.join('%s%d' % q for q in seq)), script={'ops': ops}, sym=True, oracles=set(),
+                              opts={'panics_ok': True, 'abort_ok': True, 'stale': True}, tags=['stale'], layouts=std_layouts(3, tier, seed)[:4 if tier == 'quick' else 10] + [('rank', (0, 1, 2), (1, 0, 2), 'kind', False)],
+                              collect=_c09_collect, post_item=_c09_post_item, accept_props=['C09'], max_paths=20000))
     # histories in which one destructor panics (caught by the caller): what the interrupted operation destroyed must not depend on the layout either
     for (n, e, nm) in [s for s in shapes if s[2] in ('N2[0=>1 1=>0]', 'ring3', 'clique3', 'ring3+chord')]:
         for k in range(n):
@@ -1215,6 +1310,16 @@ def items_C07(tier, seed, P):
                           {'op': 'clone', 'h': 'b', 'as': 't0'}, {'op': 'store', 'via': 'a', 'h': 't0'},
                           {'op': 'clone', 'h': 'a', 'as': 't1'}, {'op': 'store', 'via': 'b', 'h': 't1'}, {'op': 'downgrade', 'h': 'a', 'as': 'wa'}],
         'unique': [N(0, 'a'), {'op': 'downgrade', 'h': 'a', 'as': 'wa'}, {'op': 'wdrop', 'w': 'wa'}, {'op': 'weak_new', 'as': 'wa'}],
+        # the value holds a Weak to itself and its destructor inspects it (std: already dead from the value's point of view)
+        'self-weak-in-dtor': [N(0, 'a'), {'op': 'extras', 'h': 'a', 'n': 'e0'}, {'op': 'wextras', 'h': 'a', 'n': 'w0'},
+                              {'op': 'downgrade', 'h': 'a', 'as': 'sw'}, {'op': 'store_weak', 'via': 'a', 'w': 'sw'},
+                              {'op': 'on_drop', 'obj': 0, 'do': [{'op': 'upgrade', 'w': '^0'}, {'op': 'w_strong_count', 'w': '^0'}, {'op': 'w_weak_count', 'w': '^0'}]},
+                              {'op': 'downgrade', 'h': 'a', 'as': 'wa'}],
+        # a child whose destructor looks at its (dying) parent through a Weak
+        'child-observes-parent': [N(0, 'a'), N(1, 'b'), {'op': 'extras', 'h': 'a', 'n': 'e0'},
+                                  {'op': 'downgrade', 'h': 'a', 'as': 'pw'}, {'op': 'store_weak', 'via': 'b', 'w': 'pw'},
+                                  {'op': 'on_drop', 'obj': 1, 'do': [{'op': 'upgrade', 'w': '^0'}, {'op': 'w_strong_count', 'w': '^0'}, {'op': 'w_weak_count', 'w': '^0'}]},
+                                  {'op': 'store', 'via': 'a', 'h': 'b'}, {'op': 'downgrade', 'h': 'a', 'as': 'wa'}],
     }
     obs = [{'op': 'strong_count', 'h': 'a'}, {'op': 'weak_count', 'h': 'a'}]
     wobs = [{'op': 'w_strong_count', 'w': 'wa'}, {'op': 'w_weak_count', 'w': 'wa'}]
@@ -1241,9 +1346,10 @@ def items_C07(tier, seed, P):
     names = sorted(calls)
     for bn, base in bases.items():
         seqs = [(c,) for c in names] + [(c1, c2) for c1 in names for c2 in names]
+        rnd = random.Random(99 + seed)
+        seqs += [tuple(rnd.choice(names) for _ in range(3)) for _ in range(150 if L < 3 else 600)]
         if L >= 3:
-            rnd = random.Random(99 + seed)
-            seqs += [tuple(rnd.choice(names) for _ in range(3)) for _ in range(400)]
+            seqs += [tuple(rnd.choice(names) for _ in range(4)) for _ in range(300)]
         for seq in seqs:
             ops = list(base)
             held = True
@@ -1308,7 +1414,7 @@ def replay_C07(P, native, rep, scratch):
 
 
 PROPS['C07'] = dict(items=items_C07, custom_replay=replay_C07,
-                    bounds={'quick': {'states': '4 base states without adoption (one object with symbolic extra strong/Weak handles; owner holding a target that holds a Weak back; a leaking two-cycle; a unique handle with Weak::new)', 'programs': 'every sequence of <=2 calls out of 16 (clone, drop, downgrade, upgrade, Weak clone/drop, try_unwrap, get_mut, make_mut, raw round trips, increment/decrement_strong_count, ptr_eq, deref), counts observed through Rc and Weak after every call', 'oracle': 'reference model of std::rc written from the std documentation, run under each path condition; z3 decides equality of every returned count and forks the model where the path condition leaves a std decision open'},
+                    bounds={'quick': {'states': '6 base states without adoption (one object with symbolic extra strong/Weak handles; owner holding a target that holds a Weak back; a leaking two-cycle; a unique handle with Weak::new; a value whose destructor inspects a Weak to itself; a child whose destructor inspects its dying parent)', 'programs': 'every sequence of <=2 calls and 150 seeded sequences of 3 calls out of 16 (clone, drop, downgrade, upgrade, Weak clone/drop, try_unwrap, get_mut, make_mut, raw round trips, increment/decrement_strong_count, ptr_eq, deref), counts observed through Rc and Weak after every call', 'oracle': 'reference model of std::rc written from the std documentation, run under each path condition; z3 decides equality of every returned count and forks the model where the path condition leaves a std decision open'},
                             'thorough': {'programs': 'plus 400 seeded sequences of 3 calls per base state'}},
                     outside=OUTSIDE + ['comparison / hashing / formatting / From impls (delegation only, not modelled)', 'counter values within 64 of usize::MAX (cactusref aborts one step earlier than std)', 'unsized coercions, downcast, Pin'],
                     vacuity=lambda results, extra: None if sum(r.get('extra', {}).get('std_branches', 0) for r in results) > 0 else 'the std model was never compared',
@@ -1335,3 +1441,24 @@ def replay_C14(P, native, rep, scratch):
 
 
 PROPS['C14']['custom_replay'] = replay_C14
+
+
+def replay_C04(P, native, rep, scratch):
+    """a leak is confirmed with the native runner's counting allocator: after the same history (every handle and Weak
+    dropped) the process holds more live heap blocks than before it started"""
+    import runcheck, re
+    if rep['clause'] != 'leak':
+        return runcheck.replay_violation(P, native, rep, scratch)
+    cs = runcheck.concretise(rep['script'], rep['model'])
+    for op in cs['ops']:
+        if op['op'] in ('extras', 'wextras') and op['n'] > 100000:
+            return False, 'counterexample needs %d handles' % op['n'], cs
+    res, rc, err = native.run([('replay', cs)], seed=0, timeout=60)
+    end = (res.get('replay') or {}).get('end') or ''
+    m = re.search(r'handles=0 leaked_blocks=(-?\d+)', end)
+    if m and int(m.group(1)) > 0:
+        return True, 'native: counting allocator reports %s live block(s) more than before the history (%s)' % (m.group(1), end), cs
+    return False, 'native: no leaked block reported (%s, rc=%s)' % (end, rc), cs
+
+
+PROPS['C04']['custom_replay'] = replay_C04
